@@ -2,6 +2,7 @@ package main
 
 import (
 	"fmt"
+	"go/token"
 	"go/types"
 	"sort"
 	"strings"
@@ -245,3 +246,162 @@ func ruleRecoverBoundaries(p *Program, r *Report) {
 		r.Undecided("roots", fmt.Sprintf("only %d goroutine roots found", len(rs)), 0)
 	}
 }
+
+// R10h: an interface-typed field that is called without a nil test is never left unset.  For every struct type of
+// the module with an interface-typed field F such that some method call `x.F.M()` is not guarded by a nil test of
+// that field, every construction of the struct (an allocation whose fields are stored one by one: composite
+// literals) stores F.  A keyed literal that leaves F out yields the nil interface, and the unguarded call is a nil
+// dereference at run time — for input that reaches that construction only.
+func ruleInterfaceFieldsSet(p *Program, r *Report) {
+	r.Begin("R10h", "no unset interface field behind an unguarded call: for every module struct with an interface-typed field that is the receiver of a method call not guarded by a nil test of the field, each composite-literal construction of the struct that stores some fields stores that field too", 3)
+	defer r.End()
+	type fieldKey struct {
+		t *types.Named
+		i int
+	}
+	unguarded := map[fieldKey]token.Pos{}
+	fieldOfLoad := func(v ssa.Value) (fieldKey, bool) {
+		switch x := v.(type) {
+		case *ssa.UnOp:
+			if fa, ok := x.X.(*ssa.FieldAddr); ok && x.Op == token.MUL {
+				if n, ok := Deref(fa.X.Type()).(*types.Named); ok {
+					return fieldKey{n, fa.Field}, true
+				}
+			}
+		case *ssa.Field:
+			if n, ok := Deref(x.X.Type()).(*types.Named); ok {
+				return fieldKey{n, x.Field}, true
+			}
+		}
+		return fieldKey{}, false
+	}
+	for _, fn := range p.RepoFns {
+		if fn.Blocks == nil {
+			continue
+		}
+		// fields nil-tested anywhere in this function: treated as guarded here
+		tested := map[fieldKey]bool{}
+		ForEachInstr(fn, func(ins ssa.Instruction) {
+			if bo, ok := ins.(*ssa.BinOp); ok && (bo.Op == token.EQL || bo.Op == token.NEQ) {
+				for _, side := range []ssa.Value{bo.X, bo.Y} {
+					if k, ok := fieldOfLoad(side); ok {
+						tested[k] = true
+					}
+				}
+			}
+		})
+		ForEachInstr(fn, func(ins ssa.Instruction) {
+			c, ok := ins.(ssa.CallInstruction)
+			if !ok || !c.Common().IsInvoke() {
+				return
+			}
+			k, ok := fieldOfLoad(c.Common().Value)
+			if !ok || tested[k] || k.t.Obj().Pkg() == nil || !strings.HasPrefix(k.t.Obj().Pkg().Path(), Mod) {
+				return
+			}
+			if _, seen := unguarded[k]; !seen {
+				unguarded[k] = c.Pos()
+			}
+		})
+	}
+	n := 0
+	ord := map[string]int{}
+	for _, fn := range p.RepoFns {
+		if fn.Blocks == nil {
+			continue
+		}
+		ForEachInstr(fn, func(ins ssa.Instruction) {
+			al, ok := ins.(*ssa.Alloc)
+			if !ok {
+				return
+			}
+			nt, ok := Deref(al.Type()).(*types.Named)
+			if !ok {
+				return
+			}
+			st, ok := nt.Underlying().(*types.Struct)
+			if !ok {
+				return
+			}
+			if _, isParam := paramCell(al); isParam {
+				return
+			}
+			stored := map[int]bool{}
+			whole := false
+			escapes := false
+			for _, ref := range *al.Referrers() {
+				switch x := ref.(type) {
+				case *ssa.FieldAddr:
+					for _, r2 := range *x.Referrers() {
+						if s, ok := r2.(*ssa.Store); ok && s.Addr == ssa.Value(x) {
+							stored[x.Field] = true
+						} else if _, isLoad := r2.(*ssa.UnOp); !isLoad {
+							escapes = true // &x.f handed out: may be set elsewhere
+						}
+					}
+				case *ssa.Store:
+					if x.Addr == ssa.Value(al) {
+						whole = true
+					}
+				case *ssa.Call:
+					escapes = true // a method with pointer receiver / an initialiser may set fields
+				}
+			}
+			if whole || escapes || len(stored) == 0 {
+				return // zero value on purpose, copied from another value, or initialised by a callee
+			}
+			// a value returned next to an error is a placeholder, not a result
+			onlyWithError, returned := true, false
+			for _, b := range fn.Blocks {
+				ret, ok := b.Instrs[len(b.Instrs)-1].(*ssa.Return)
+				if !ok {
+					continue
+				}
+				mine := false
+				for i := range ret.Results {
+					if ld, ok := RetVal(ret, i).(*ssa.UnOp); ok && ld.X == ssa.Value(al) {
+						mine = true
+					}
+				}
+				if !mine {
+					continue
+				}
+				returned = true
+				hasErr := false
+				for i, rv := range ret.Results {
+					if isErrorType(rv.Type()) && !IsNilConst(RetVal(ret, i)) {
+						hasErr = true
+					}
+				}
+				if !hasErr {
+					onlyWithError = false
+				}
+			}
+			if returned && onlyWithError {
+				return
+			}
+			for i := 0; i < st.NumFields(); i++ {
+				k := fieldKey{nt, i}
+				usePos, need := unguarded[k]
+				if !need || !types.IsInterface(st.Field(i).Type()) {
+					continue
+				}
+				n++
+				top := fn
+				for top.Parent() != nil {
+					top = top.Parent()
+				}
+				r.Fn(FnName(top))
+				key := fmt.Sprintf("set@%s#%s.%s", FnName(top), nt.Obj().Name(), st.Field(i).Name())
+				ord[key]++
+				if ord[key] > 1 {
+					key = fmt.Sprintf("%s~%d", key, ord[key])
+				}
+				r.Check(stored[i], key, "field set by this construction", fmt.Sprintf("%s builds a %s that sets other fields but leaves the interface field %s nil, and %s calls a method on that field without a nil test: a nil dereference for the inputs that take this construction", FnName(fn), nt.Obj().Name(), st.Field(i).Name(), p.Pos(usePos)), al.Pos())
+			}
+		})
+	}
+	_ = n
+}
+
+func init() { register("C10", Rule{"R10h", ruleInterfaceFieldsSet}) }
